@@ -60,6 +60,27 @@ def run(ctx):
                           dict(kind="input", failing_obligations=failing, violation=v, scenario=sc,
                                how_to_replay="symlib.write_case(dir, scenario['scenario']); sympler in.xml; VPAIR lines of obs.txt vs brute force (sim/corr_grid.py oracle)"), True)
         else:
+            # a proof obligation or the correspondence broke without a failing input in this run: search the implementation with a
+            # larger batch of scenarios and the brute-force oracle alone (another seed stream) before giving up
+            found = None
+            if ok:
+                import shutil
+                class _S: pass
+                s2 = _S(); s2.seed = ctx.seed + 7001; s2.thorough = ctx.thorough
+                summ2, keep2 = gridcheck.run_corr(s2, 500, "c01search")
+                v2 = [v for v in (summ2 or {}).get("oracle_violations", []) if v["what"].startswith("pair")]
+                if v2:
+                    found = (v2[0], gridcheck.scenario_of(keep2, v2[0]["case"]))
+                if keep2:
+                    shutil.rmtree(keep2, ignore_errors=True)
+            if found:
+                ctx.violation("C01 violated on the real binary (found by the extended search): step %s: %s" % (found[0]["step"], found[0]["what"][:300]),
+                              dict(kind="input", failing_obligations=failing, violation=found[0], scenario=found[1],
+                                   how_to_replay="symlib.write_case(dir, scenario['scenario']); sympler in.xml; VPAIR lines of obs.txt vs brute force (sim/corr_grid.py oracle)"), True)
+                if keep:
+                    import shutil
+                    shutil.rmtree(keep, ignore_errors=True)
+                return
             d = (pair_dis + other_dis)[:1]
             ctx.violation("C01 is no longer shown to hold: " + "; ".join(failing[:3]),
                           dict(kind="proof-or-correspondence", failing_obligations=failing, lake_errors=getattr(ctx, "lake_errors", []),
